@@ -387,7 +387,7 @@ pub fn boundary_values(ty: VariantType, xml_safe: bool, k: usize) -> Vec<Variant
         VariantType::Bool => out.extend([Variant::Bool(false), Variant::Bool(true)]),
         VariantType::String => out.extend(
             ["", " ", "  lead", "trail  ", "a]]>b", "<tag attr=\"v\">&amp;</tag>", "line1\nline2", "\t", "\n", " \n\t ", "]]>", "]]>]]>", "&lt;",
-             "h\u{e9}llo w\u{f6}rld", "\u{1F600}", "null", "<null></null>"]
+             "h\u{e9}llo w\u{f6}rld", "\u{1F600}", "null", "<null></null>", "\r", "\r\n", " \r", "\r x \r", "a\rb"]
                 .iter()
                 .map(|t| Variant::String(t.to_string())),
         ),
